@@ -152,7 +152,7 @@ class Tr:
         # destination-buffer names are plumbing only when they are PARAMETERS of this function
         self.drop = set(tgt.drop) | {a.arg for a in fdef.args.args if a.arg in PLUMBING}
         self.counter = 0
-        self.raises = any(isinstance(n, ast.Raise) for n in ast.walk(fdef)) or tgt.force_raises
+        self.raises = any(isinstance(n, (ast.Raise, ast.Assert)) for n in ast.walk(fdef)) or tgt.force_raises
         self.notes = []                    # (kind, source text) of every construct dropped as a value-level no-op
 
     def note(self, kind, node):
@@ -262,6 +262,9 @@ class Tr:
             return self.binop(node, env, want)
         if isinstance(node, ast.Compare):
             txt = self.compare(node, env)
+            for key, q in self.fam.prims.items():
+                if key.endswith('!=0') and txt.startswith(f'(P.{q.field} '):
+                    return txt, q.ret
             return txt, ('bfld' if txt.startswith('(fun p =>') else 'bool')
         if isinstance(node, ast.BoolOp):
             parts = [self.cond(v, env) for v in node.values]
@@ -453,8 +456,21 @@ class Tr:
                 p = self.fam.prims[key]
                 a, _ = self.E(ast.copy_location(ast.Name(id=root, ctx=ast.Load()), node), env, p.args[0])
                 return f'(P.{p.field} {a} "{r.value}")'
+        if op in (ast.Is, ast.IsNot) and isinstance(l, ast.Attribute) and l.attr == 'dtype' and dotted(r) == 'np.bool_' \
+                and '.dtype is np.bool_' in self.fam.prims:
+            p = self.fam.prims['.dtype is np.bool_']
+            a, _ = self.E(l.value, env, p.args[0])
+            return f'(P.{p.field} {a})' if op is ast.Is else f'(!(P.{p.field} {a}))'
         if op in (ast.Is, ast.IsNot):
             raise self.err(node, '`is` test (default-argument handling must be listed in the signature)')
+        if op in (ast.Eq, ast.NotEq):
+            a0, s0 = self._E(l, env)
+            b0, s1 = self._E(r, env)
+            if s0 == 'str' and s1 == 'str':
+                return f'(decide ({a0} {self.CMP[op]} {b0}))'
+            if op is ast.NotEq and f'{s0}!=0' in self.fam.prims and isinstance(r, ast.Constant) and r.value == 0 \
+                    and not isinstance(r.value, bool):
+                return f'(P.{self.fam.prims[s0 + "!=0"].field} {a0})'
         if op not in self.CMP:
             raise self.err(node, 'comparison outside the subset')
         a, sa = self._E(l, env)
@@ -564,6 +580,36 @@ class Tr:
             if sa == 'fld' and sb in ('K', 'nat', 'int', 'natlit'):
                 b = self.coerce(b, sb, 'K', node)
                 return f'(fun p => if {b} < ({a} p) then {b} else ({a} p))', 'fld'
+        src = ast.unparse(node).replace(' ', '')
+        # np.all((f == 0) | (f == 1)): every element is 0 or 1
+        m = re.fullmatch(r'np\.all\(\((\w+)==0\)\|\((\w+)==1\)\)', src)
+        if m and m.group(1) == m.group(2) and m.group(1) in env and 'np.all(0|1)' in self.fam.prims:
+            p = self.fam.prims['np.all(0|1)']
+            a, _ = self.E(ast.copy_location(ast.Name(id=m.group(1), ctx=ast.Load()), node), env, p.args[0])
+            return f'(P.{p.field} {a})', p.ret
+        # np.pad(f, ((0, 1), (0, 1)), mode='constant'): one background row below, one background column to the right
+        if d == 'np.pad' and len(node.args) == 2 and ast.unparse(node.args[1]).replace(' ', '') == '((0,1),(0,1))' \
+                and [(k.arg, getattr(k.value, 'value', None)) for k in node.keywords] == [('mode', 'constant')] \
+                and 'np.pad01' in self.fam.prims:
+            p = self.fam.prims['np.pad01']
+            a, _ = self.E(node.args[0], env, p.args[0])
+            return f'(P.{p.field} {a})', p.ret
+        # x.astype(c.dtype, copy=False) with c a reviewed module constant: conversion to the dtype of c
+        if isinstance(node.func, ast.Attribute) and node.func.attr == 'astype' and len(node.args) == 1 \
+                and isinstance(node.args[0], ast.Attribute) and node.args[0].attr == 'dtype' \
+                and isinstance(node.args[0].value, ast.Name) and node.args[0].value.id in self.t.consts \
+                and all(k.arg == 'copy' for k in node.keywords) and '.astype(like)' in self.fam.prims:
+            p = self.fam.prims['.astype(like)']
+            a, _ = self.E(node.func.value, env, p.args[0])
+            c, _ = self.E(node.args[0].value, env, p.args[1])
+            return f'(P.{p.field} {a} {c})', p.ret
+        # table[values].sum(): the sum of the table entries selected by an integer image
+        if isinstance(node.func, ast.Attribute) and node.func.attr == 'sum' and not node.args and not node.keywords \
+                and isinstance(node.func.value, ast.Subscript) and '[].sum()' in self.fam.prims:
+            p = self.fam.prims['[].sum()']
+            a, _ = self.E(node.func.value.value, env, p.args[0])
+            i, _ = self.E(node.func.value.slice, env, p.args[1])
+            return f'(P.{p.field} {a} {i})', p.ret
         if d == 'len' and len(node.args) == 1 and not node.keywords:
             a, sa = self._E(node.args[0], env)
             if sa in LIST_ELEM:
@@ -712,7 +758,7 @@ class Tr:
         """does the block contain a return / raise / break / continue (not counting nested loops for break/continue)?"""
         def walk(ss, inloop):
             for s in ss:
-                if isinstance(s, (ast.Return, ast.Raise)):
+                if isinstance(s, (ast.Return, ast.Raise, ast.Assert)):
                     return True
                 if isinstance(s, (ast.Break, ast.Continue)) and not inloop:
                     return True
@@ -768,6 +814,12 @@ class Tr:
             raise self.err(s, 'expression statement outside the subset')
         if isinstance(s, (ast.Pass, ast.Import, ast.ImportFrom)):
             return self.S(rest, env, k, ind)
+        if isinstance(s, ast.Assert):
+            # `assert c, msg`: AssertionError when c is false (python -O is not modelled)
+            if getattr(self, '_inloop', 0) or getattr(self, '_ret', None):
+                raise self.err(s, '`assert` inside a loop / nested def')
+            c = self.cond(s.test, env)
+            return [pad + f'if {c} then'] + self.S(rest, env, k, ind + 1) + [pad + 'else', pad + '  none']
         if isinstance(s, ast.Return):
             if s.value is None:
                 raise self.err(s, 'bare return')
@@ -1326,6 +1378,22 @@ RESIZE = Family(
                      doc='`interpolate.zoom(array, zoom, order=order, out=out)` with the defaults mode="constant", cval=0.0, prefilter=True'),
     }, extra_params=EMBED, prop='C18')
 
+LEAN_TYPE.update({'vimg': 'V', 'tbl': 'T', 'kern': 'Kn', 'res': 'R'})
+EULER = Family(
+    'euler', ['A', 'V', 'T', 'Kn', 'R'], '', 'EulerPrims',
+    {
+        'const:_euler_lookup8': Prim('lookup8', [], 'tbl'),
+        'const:_euler_lookup4': Prim('lookup4', [], 'tbl'),
+        'const:_powers': Prim('powers', [], 'kern'),
+        '.dtype is np.bool_': Prim('is_bool', ['arr'], 'bool', doc='`f.dtype is np.bool_`'),
+        'np.all(0|1)': Prim('all_binary', ['arr'], 'bool', doc='`np.all((f == 0) | (f == 1))`'),
+        'arr!=0': Prim('ne0', ['arr'], 'arr', doc='`f != 0`: the boolean image'),
+        'np.pad01': Prim('pad01', ['arr'], 'arr', doc='`np.pad(f, ((0, 1), (0, 1)), mode="constant")`'),
+        '.astype(like)': Prim('astype_like', ['arr', 'kern'], 'arr', doc='`f.astype(_powers.dtype, copy=False)`'),
+        'convolve': Prim('convolve', ['arr', 'kern', 'str'], 'vimg', kw={'mode': 2}),
+        '[].sum()': Prim('lookup_sum', ['tbl', 'vimg'], 'res', doc='`lookup[value].sum()`'),
+    }, prop='C15')
+
 HISTO = Family(
     'histogram thresholds', ['H', 'G'], '', 'HistPrims',
     {
@@ -1383,6 +1451,8 @@ TARGETS = [
     Target('colors.py', 'rgb2lab', [('rgb', 'arr'), ('dtype', 'optD')], 'arr', COLORS2),
     Target('colors.py', 'rgb2sepia', [('rgb', 'fld')], 'fld', COLORS2),
     Target('morph.py', 'circle_se', [('radius', 'K')], 'bfld', CIRCLE),
+    Target('euler.py', 'euler', [('f', 'arr'), ('n', 'nat'), ('mode', 'str')], 'res', EULER,
+           consts={'_euler_lookup8': ('P.lookup8', 'tbl'), '_euler_lookup4': ('P.lookup4', 'tbl'), '_powers': ('P.powers', 'kern')}),
     # `out` is a LOCAL here (the array that fixes the output shape), not a destination-buffer parameter: it is kept
     Target('resize.py', 'resize_to', [('im', 'arr'), ('nsize', 'natlist'), ('order', 'nat')], 'arr', RESIZE),
     # falls off the end after 63 unsuccessful steps: Python returns None and both callers fail on the tuple unpacking
@@ -1391,7 +1461,7 @@ TARGETS = [
     Target('convolve.py', 'wavelet_center', [('f', 'arr'), ('border', 'int'), ('dtype', 'dtype'), ('cval', 'K')], 'arr', WAVE, raises=True),
     Target('convolve.py', 'wavelet_decenter', [('w', 'arr'), ('oshape', 'intlist'), ('border', 'int')], 'arr', WAVE, raises=True),
 ]
-FAMILIES = [MORPH, CONV, THRESH, HISTO, LAPL, RC, SOFT, EXTREMA, STRETCH, COLORS, COLORS2, WAVE, CIRCLE, RESIZE]
+FAMILIES = [MORPH, CONV, THRESH, HISTO, LAPL, RC, SOFT, EXTREMA, STRETCH, COLORS, COLORS2, WAVE, CIRCLE, RESIZE, EULER]
 
 
 def _find_function(tree, name):
